@@ -530,4 +530,180 @@ theorem valuePerOutput_shows (vol outs : Nat) (hv : vol < 2 ^ 53) (ho0 : 0 < out
   generalize (vol : Rat) / outs = q at *
   clear fm fd fa fb fc va vb
   constructor <;> grind
+
+/-! ## accumulators of any size: conversions round too -/
+
+theorem rel_pos {x q : Rat} (h : Rel 1 x q) (hq : 0 < q) : 0 < x := by
+  obtain ⟨_, h2⟩ := h
+  grind
+
+/-- quotient of two values each within one rounding of its exact counterpart -/
+theorem rel_div11 {X Y qx qy : Rat} (hx : Rel 1 X qx) (hy : Rel 1 Y qy) (hqx : 0 ≤ qx) (hqy : 0 < qy) :
+    Rel 4 (X / Y) (qx / qy) := by
+  have hY : 0 < Y := rel_pos hy hqy
+  have hE : qx / qy * qy = qx := Rat.div_mul_cancel (Rat.ne_of_gt hqy)
+  have hE0 : 0 ≤ qx / qy := div_nonneg' hqx hqy
+  generalize qx / qy = E at *
+  subst hE
+  obtain ⟨x1, x2⟩ := hx
+  obtain ⟨y1, y2⟩ := hy
+  constructor
+  · apply div_le_of_le_mul hY
+    have hc : 0 ≤ E + 4 * E / 2 ^ 53 := by grind
+    have m := Rat.mul_le_mul_of_nonneg_left (show qy - 1 * qy / 2 ^ 53 ≤ Y by grind) hc
+    grind
+  · have : E - 4 * E / 2 ^ 53 ≤ X / Y := by
+      apply le_div_of_mul_le hY
+      by_cases hc : 0 ≤ E - 4 * E / 2 ^ 53
+      · have m := Rat.mul_le_mul_of_nonneg_left (show Y ≤ qy + 1 * qy / 2 ^ 53 by grind) hc
+        grind
+      · grind
+    grind
+
+/-- **`a as f64 / b as f64` for any two `u64` values** (`b ≠ 0`): three roundings, `K = 6` -/
+theorem ratio_shows_any (a b : Nat) (hb0 : 0 < b) : ∃ v, v.Fin ∧ ratio a b = fmt 2 v ∧ Shows 2 6 v ((a : Rat) / b) := by
+  obtain ⟨fa, ra⟩ := ofNat_val' a
+  obtain ⟨fb, rb⟩ := ofNat_val' b
+  have hbq : (0 : Rat) < b := natCast_pos hb0
+  have hbpos : 0 < (ofNat b).val := rel_pos rb hbq
+  obtain ⟨fd, rd⟩ := div_val _ _ fa fb hbpos
+  have r4 := rel_div11 ra rb Rat.natCast_nonneg hbq
+  refine ⟨_, fd, rfl, ?_⟩
+  obtain ⟨f1, f2⟩ := fmt_val 2 _ fd
+  have hq0 : (0 : Rat) ≤ (a : Rat) / b := div_nonneg' Rat.natCast_nonneg hbq
+  simp only [Shows, shown, Rel] at *
+  generalize (ofNat a).val / (ofNat b).val = Q at *
+  generalize (div (ofNat a) (ofNat b)).val = Y at *
+  generalize ((digits 2 (div (ofNat a) (ofNat b)) : Nat) : Rat) / 10 ^ 2 = P at *
+  generalize (a : Rat) / b = E at *
+  clear fa fb fd hbpos
+  constructor <;> grind
+
+theorem rel_mul11 {X C qx qc : Rat} (hx : Rel 1 X qx) (hc : Rel 1 C qc) (hqx : 0 ≤ qx) (hqc : 0 ≤ qc) (hX : 0 ≤ X) (hC : 0 ≤ C) :
+    Rel 3 (X * C) (qx * qc) := by
+  obtain ⟨x1, x2⟩ := hx
+  obtain ⟨c1, c2⟩ := hc
+  have hqq : 0 ≤ qx * qc := Rat.mul_nonneg hqx hqc
+  constructor
+  · have m1 := Rat.mul_le_mul_of_nonneg_right x1 hC
+    have m2 := Rat.mul_le_mul_of_nonneg_left c1 (show 0 ≤ qx + 1 * qx / 2 ^ 53 by grind)
+    grind
+  · have m1 := Rat.mul_le_mul_of_nonneg_right x2 hC
+    have m2 := Rat.mul_le_mul_of_nonneg_left c2 hqx
+    have m3 := Rat.mul_le_mul_of_nonneg_left c1 (show 0 ≤ 1 * qx / 2 ^ 53 by grind)
+    grind
+
+theorem rel_mul61 {X C qx qc : Rat} (hx : Rel 6 X qx) (hc : Rel 1 C qc) (hqx : 0 ≤ qx) (hqc : 0 ≤ qc) (hX : 0 ≤ X) (hC : 0 ≤ C) :
+    Rel 8 (X * C) (qx * qc) := by
+  obtain ⟨x1, x2⟩ := hx
+  obtain ⟨c1, c2⟩ := hc
+  have hqq : 0 ≤ qx * qc := Rat.mul_nonneg hqx hqc
+  constructor
+  · have m1 := Rat.mul_le_mul_of_nonneg_right x1 hC
+    have m2 := Rat.mul_le_mul_of_nonneg_left c1 (show 0 ≤ qx + 6 * qx / 2 ^ 53 by grind)
+    grind
+  · have m1 := Rat.mul_le_mul_of_nonneg_right x2 hC
+    have m2 := Rat.mul_le_mul_of_nonneg_left c2 hqx
+    have m3 := Rat.mul_le_mul_of_nonneg_left c1 (show 0 ≤ 6 * qx / 2 ^ 53 by grind)
+    grind
+
+/-- a rounded quotient of two rounded conversions -/
+theorem div_any (a b : Nat) (hb0 : 0 < b) :
+    (div (ofNat a) (ofNat b)).Fin ∧ Rel 6 (div (ofNat a) (ofNat b)).val ((a : Rat) / b) := by
+  obtain ⟨fa, ra⟩ := ofNat_val' a
+  obtain ⟨fb, rb⟩ := ofNat_val' b
+  have hbq : (0 : Rat) < b := natCast_pos hb0
+  have hbpos : 0 < (ofNat b).val := rel_pos rb hbq
+  obtain ⟨fd, rd⟩ := div_val _ _ fa fb hbpos
+  have r4 := rel_div11 ra rb Rat.natCast_nonneg hbq
+  refine ⟨fd, ?_⟩
+  have hq0 : (0 : Rat) ≤ (a : Rat) / b := div_nonneg' Rat.natCast_nonneg hbq
+  simp only [Rel] at *
+  generalize (ofNat a).val / (ofNat b).val = Q at *
+  generalize (div (ofNat a) (ofNat b)).val = Y at *
+  generalize (a : Rat) / b = E at *
+  clear fa fb fd hbpos
+  constructor <;> grind
+
+/-- **`get_mean(xs) / c` for any `u64` sum and length** (`c` = 1024 or 60, exact): `K = 8` -/
+theorem meanOver_shows_any (sum len c : Nat) (hl0 : 0 < len) (hc0 : 0 < c) (hc : c < 2 ^ 53) :
+    ∃ v, v.Fin ∧ meanOver sum len c = fmt 2 v ∧ Shows 2 8 v ((sum : Rat) / len / c) := by
+  obtain ⟨fm, rm⟩ := div_any sum len hl0
+  obtain ⟨fc, vc⟩ := ofNat_val c hc
+  have hcpos : (0 : Rat) < c := natCast_pos hc0
+  have hmean : mean sum len = div (ofNat sum) (ofNat len) := by simp [mean, Nat.ne_of_gt hl0]
+  obtain ⟨fd, rd⟩ := div_val _ _ fm fc (by rw [vc]; exact hcpos)
+  rw [vc] at rd
+  refine ⟨_, fd, by simp [meanOver, hmean], ?_⟩
+  obtain ⟨f1, f2⟩ := fmt_val 2 _ fd
+  have hq0 : (0 : Rat) ≤ (sum : Rat) / len := div_nonneg' Rat.natCast_nonneg (natCast_pos hl0)
+  have m := rel_div 6 rm hcpos
+  have hqc : 0 ≤ (sum : Rat) / len / (c : Rat) := div_nonneg' hq0 hcpos
+  simp only [Shows, shown, Rel] at *
+  generalize (div (ofNat sum) (ofNat len)).val = X at *
+  generalize (div (div (ofNat sum) (ofNat len)) (ofNat c)).val = Y at *
+  generalize ((digits 2 (div (div (ofNat sum) (ofNat len)) (ofNat c)) : Nat) : Rat) / 10 ^ 2 = P at *
+  generalize (sum : Rat) / len / (c : Rat) = E at *
+  generalize X / (c : Rat) = Xc at *
+  clear hmean fd fm fc vc
+  constructor <;> grind
+
+/-- **`x as f64 * 1E-8` for any `u64`**: `K = 5` -/
+theorem coins_shows_any (x : Nat) : ∃ v, v.Fin ∧ coins x = fmt 8 v ∧ Shows 8 5 v ((x : Rat) * (1 / 10 ^ 8)) := by
+  obtain ⟨fa, ra⟩ := ofNat_val' x
+  obtain ⟨fc, rc⟩ := c1em8_val
+  obtain ⟨fm, rm⟩ := mul_val _ _ fa fc
+  refine ⟨_, fm, rfl, ?_⟩
+  obtain ⟨f1, f2⟩ := fmt_val 8 _ fm
+  have hx0 : (0 : Rat) ≤ (x : Rat) := Rat.natCast_nonneg
+  have hc0 : (0 : Rat) ≤ 1 / 10 ^ 8 := by grind
+  have r3 := rel_mul11 ra rc hx0 hc0 (val_nonneg _ fa) (val_nonneg _ fc)
+  have hE0 : (0 : Rat) ≤ (x : Rat) * (1 / 10 ^ 8) := Rat.mul_nonneg hx0 hc0
+  simp only [Shows, shown, Rel] at *
+  generalize (mul (ofNat x) c1em8).val = Y at *
+  generalize ((digits 8 (mul (ofNat x) c1em8) : Nat) : Rat) / 10 ^ 8 = P at *
+  generalize (ofNat x).val * c1em8.val = Q at *
+  generalize (x : Rat) * (1 / 10 ^ 8) = E at *
+  clear fm fa fc
+  constructor <;> grind
+
+/-- **`(count as f64 / outs as f64) * 100.00` for any `u64` values**: `K = 8` -/
+theorem share_shows_any (count outs : Nat) (ho0 : 0 < outs) :
+    ∃ v, v.Fin ∧ share count outs = fmt 2 v ∧ Shows 2 8 v ((count : Rat) / outs * 100) := by
+  obtain ⟨fd, rd⟩ := div_any count outs ho0
+  obtain ⟨fh, vh⟩ := ofNat_val 100 (by decide)
+  obtain ⟨fm, rm⟩ := mul_val _ _ fd fh
+  rw [vh] at rm
+  refine ⟨_, fm, rfl, ?_⟩
+  obtain ⟨f1, f2⟩ := fmt_val 2 _ fm
+  have hq0 : (0 : Rat) ≤ (count : Rat) / outs := div_nonneg' Rat.natCast_nonneg (natCast_pos ho0)
+  have e100 : ((100 : Nat) : Rat) = 100 := by simp
+  rw [e100] at rm
+  simp only [Shows, shown, Rel] at *
+  generalize (div (ofNat count) (ofNat outs)).val = X at *
+  generalize (mul (div (ofNat count) (ofNat outs)) (ofNat 100)).val = Y at *
+  generalize ((digits 2 (mul (div (ofNat count) (ofNat outs)) (ofNat 100)) : Nat) : Rat) / 10 ^ 2 = P at *
+  generalize (count : Rat) / outs = q at *
+  clear fm fd fh vh
+  constructor <;> grind
+
+/-- **`volume as f64 / outs as f64 * 1E-8` for any `u64` values**: `K = 10` -/
+theorem valuePerOutput_shows_any (vol outs : Nat) (ho0 : 0 < outs) :
+    ∃ v, v.Fin ∧ valuePerOutput vol outs = fmt 2 v ∧ Shows 2 10 v ((vol : Rat) / outs * (1 / 10 ^ 8)) := by
+  obtain ⟨fd, rd⟩ := div_any vol outs ho0
+  obtain ⟨fc, rc⟩ := c1em8_val
+  obtain ⟨fm, rm⟩ := mul_val _ _ fd fc
+  refine ⟨_, fm, rfl, ?_⟩
+  obtain ⟨f1, f2⟩ := fmt_val 2 _ fm
+  have hq0 : (0 : Rat) ≤ (vol : Rat) / outs := div_nonneg' Rat.natCast_nonneg (natCast_pos ho0)
+  have hc0 : (0 : Rat) ≤ 1 / 10 ^ 8 := by grind
+  have r8 := rel_mul61 rd rc hq0 hc0 (val_nonneg _ fd) (val_nonneg _ fc)
+  have hE0 : (0 : Rat) ≤ (vol : Rat) / outs * (1 / 10 ^ 8) := Rat.mul_nonneg hq0 hc0
+  simp only [Shows, shown, Rel] at *
+  generalize (mul (div (ofNat vol) (ofNat outs)) c1em8).val = Y at *
+  generalize ((digits 2 (mul (div (ofNat vol) (ofNat outs)) c1em8) : Nat) : Rat) / 10 ^ 2 = P at *
+  generalize (div (ofNat vol) (ofNat outs)).val * c1em8.val = Q at *
+  generalize (vol : Rat) / outs * (1 / 10 ^ 8) = E at *
+  clear fm fd fc
+  constructor <;> grind
 end F64
